@@ -419,6 +419,51 @@ def must(ctx: Ctx, rep: Report) -> None:
         'a disconnecting client\'s open tasks are not all cancelled',
         key='disconnect-cancel',
     )
+    # ... and they are cancelled while the server still knows them: the
+    # cancel handler declines ids that are not in self.tasks, so the loop
+    # has to run before this client's entries are popped from that table
+    pops = [n for n in g.nodes if q.has_call('self.tasks.pop')(n)]
+    canc = [n for n in g.nodes if q.has_call(
+        'self.handle_cancel_comp_task')(n)]
+    rep.count()
+    rep.check(
+        bool(canc) and not any(
+            c.id in g.reach([p.id], include_starts=False)
+            for p in pops for c in canc), M,
+        'DetachedServer.handle_disconnect:order', f.path, f.lineno,
+        'tasks are cancelled before their table entries are dropped',
+        'handle_disconnect drops the client\'s entries from self.tasks '
+        'before it cancels them: handle_cancel_comp_task then declines '
+        'every one as unknown and the work keeps running', key='cancel-first',
+    )
+    # a failure in a task that is (a descendant of) cancelled work is not
+    # reported: the test is the descendant test, not exact membership
+    f2 = ctx.fn(R.WORKER + '._try_step_next_ready_task')
+    g2 = ctx.cfg(f2)
+    rep.seen(f2.qualname)
+    hs = [n for n in g2.nodes if n.kind == 'except' and norm(
+        n.stmt.type) == 'Exception']
+    rets = [n for n in g2.nodes if isinstance(n.stmt, ast.Return)
+            and hs and n.id in g2.reach([hs[0].id])]
+    desc = [t for t in g2.nodes if t.kind == 'test' and norm(
+        t.stmt.test) == 'task.is_descendant_of(addr)']
+    loops = [n for n in g2.nodes if n.kind == 'for' and norm(
+        n.stmt.iter) == 'self._cancelled_task_ids']
+    rep.count()
+    rep.check(
+        len(hs) == 1 and bool(rets) and len(desc) == 1 and len(loops) == 1
+        and all(g2.edge_dominates(desc[0].id, 'true', r.id) for r in rets)
+        and desc[0].id in g2.in_loop_body(loops[0]), M,
+        'Worker._try_step_next_ready_task:cancelled-error', f2.path,
+        f2.lineno,
+        'an exception in a descendant of cancelled work is dropped, any '
+        'other is reported',
+        'the error handler does not decide "cancelled" by '
+        'task.is_descendant_of(addr) over every cancelled address: the '
+        'failure of a task whose ancestor was cancelled is reported to the '
+        'client as an error of the compilation (or a real error is '
+        'swallowed)', key='cancelled-error',
+    )
     # forwarding on every role
     roles = [(R.DET, 'BELOW', 'down'), (R.MGR, 'ABOVE', 'down')]
     for qual, direction, _ in roles:
